@@ -218,8 +218,17 @@ async fn run_once(base: &Env, op: &str, plan: Plan, variant: u64, swallow: bool)
     // the store call itself runs to its end; whether it took effect is read off the store
     let dropped = ctl.dropped_in_flight();
     if !dropped.is_empty() {
-        tokio::time::sleep(std::time::Duration::from_millis(80)).await;
-        let listing = env.list_all().await;
+        // let the store calls that are still running land: wait until the store stops changing
+        let mut listing = env.list_all().await;
+        for _ in 0..40 {
+            tokio::time::sleep(std::time::Duration::from_millis(150)).await;
+            let again = env.list_all().await;
+            let stable = again == listing;
+            listing = again;
+            if stable {
+                break;
+            }
+        }
         for mut e in dropped {
             let (target, source_gone) = match e.kind {
                 inject::K_PUT | inject::K_CREATE => (env.rel(&e.a), true),
